@@ -21,7 +21,7 @@ EXPLANATION = (
     'error code raised under each rejection condition (resume flag, lease without publisher, on_setup raising, '
     'RESUME frame), on_setup called once with the fields of the frame, the dispatch table entries, the reply on the '
     'stream id of the offending frame. Not decided: wire order as observed at run time.')
-EXPLANATION_ADDED = ('The head insertion puts SETUP in only after the queue was seen empty, keeps what was queued before, and is used by connect() only (shared C05.b).')
+EXPLANATION_ADDED = ('The head insertion puts SETUP in only after the queue was seen empty, keeps what was queued before, and is used by connect() only (shared C05.b). (e) the configuration attributes the constructor fills from its arguments and that connection set-up reads (setup payload, MIME types, keep-alive and lifetime periods, lease flag) are assigned nowhere else, so every reconnect states the same configuration.')
 EXPLANATION = EXPLANATION.replace(' Not decided', ' ' + EXPLANATION_ADDED + ' Not decided', 1) \
     if ' Not decided' in EXPLANATION else EXPLANATION + ' ' + EXPLANATION_ADDED
 ASSUMPTIONS = COMMON_ASSUMPTIONS
@@ -405,4 +405,44 @@ def rule_plumbing(ctx):
     c05b(ctx)
 
 
-RULES = [('C16.a', rule_a), ('C16.b', rule_b), ('C16.c', rule_c), ('C16.d', rule_d), ('C16.b', rule_plumbing)]
+def rule_e(ctx):
+    """What the client was configured with is still there for the next connection: the attributes __init__ fills from
+    the constructor arguments and that SETUP (and the keepalive / lease machinery) read are written nowhere else.  A
+    'clean-up' of one of them on close() silently changes the SETUP of every reconnect."""
+    rep = ctx.report
+    slots = ctx.slots
+    base = slots.RSocketBase
+    init = base.lookup('__init__')
+    params = set(init.params()[1:])
+    config = {}
+    for n in walk_local(init.node):
+        if isinstance(n, ast.Assign) and len(n.targets) == 1 and isinstance(n.targets[0], ast.Attribute) and \
+                isinstance(n.targets[0].value, ast.Name) and n.targets[0].value.id == 'self':
+            names = {x.id for x in ast.walk(n.value) if isinstance(x, ast.Name)}
+            from_params = names & params
+            if from_params and not (names - params - {'ensure_encoding_name', 'timedelta', 'self'}):
+                config[n.targets[0].attr] = sorted(from_params)[0]
+    # those the connection set-up reads
+    readers = [base.lookup('connect'), base.lookup('_create_setup_frame'), base.lookup('send_request'),
+               slots.RSocketClient.lookup('_keepalive_send_task'), slots.RSocketClient.lookup('_keepalive_timeout_task')]
+    read = set()
+    for f in readers:
+        if f is None:
+            continue
+        for n in walk_local(f.node):
+            if isinstance(n, ast.Attribute) and isinstance(n.value, ast.Name) and n.value.id == 'self' and \
+                    isinstance(n.ctx, ast.Load) and n.attr in config:
+                read.add(n.attr)
+    rep.require('C16.e', 'configuration attributes read when a connection is set up', len(read), 6)
+    for a in sorted(read):
+        writers = [(f, st) for f, st, _ in ctx.repo.attr_assignments(slots.RSocketClient, a) +
+                   ctx.repo.attr_assignments(slots.RSocketServer, a) if f.name != '__init__']
+        seen = set()
+        writers = [(f, st) for f, st in writers if not (id(st) in seen or seen.add(id(st)))]
+        rep.add('C16.e', 'RSocketBase.%s / configuration is written by the constructor only' % a, init, not writers,
+                'set from the constructor argument %s and never reassigned' % config[a] if not writers else
+                '%s (line %d) reassigns self.%s: connections made after that do not state what the client was '
+                'configured with' % (writers[0][0].short, writers[0][1].lineno, a))
+
+
+RULES = [('C16.a', rule_a), ('C16.b', rule_b), ('C16.c', rule_c), ('C16.d', rule_d), ('C16.b', rule_plumbing), ('C16.e', rule_e)]
